@@ -9,6 +9,7 @@ import (
 	"k8s.io/apimachinery/pkg/api/resource"
 
 	"verif/h"
+	"verif/ref"
 	"verif/sim"
 )
 
@@ -29,6 +30,7 @@ type c06Case struct {
 	Starve   string // "" | big | small
 	MaxAge   string // "" | old | young
 	AtMax    bool   // max_nodes equals the total node count (untainted + tainted)
+	Annot    int    // this many of the oldest untainted nodes carry the no-delete annotation (they are tainted like any other)
 	Shape    string // "" | init2: the load pod also carries two init containers, each one unit smaller than its container
 }
 
@@ -62,7 +64,11 @@ func c06Build(p c06Case) *h.Scenario {
 				if p.MaxAge == "old" && i == 0 {
 					age = 100 * Q
 				}
-				n := hh.W.AddNode(a, sim.NodeOpt{Age: age})
+				o := sim.NodeOpt{Age: age}
+				if p.U-i <= p.Annot {
+					o.Annotation = "keep" // the oldest nodes are the last ones added (largest age)
+				}
+				n := hh.W.AddNode(a, o)
 				if first == "" {
 					first = n.Name
 				}
@@ -124,7 +130,75 @@ func max64(a, b int64) int64 {
 	return b
 }
 
-func c06Monitors() []h.Monitor { return []h.Monitor{NewDecisions()} }
+// DryBands: the band rule for a dry-mode group, whose tainted nodes are the ones its tracker names.
+// Scans of histories without scale-ups (no cool-down to track): the number of nodes newly named by
+// the tracker must be the band's number computed on the untracked untainted nodes.
+type DryBands struct{}
+
+func (DryBands) Key() string { return "" }
+func (DryBands) AfterScan(ctx *h.ScanCtx) []h.Violation {
+	var out []h.Violation
+	if ctx.Faulted || ctx.Res.Err != nil || ctx.Res.Panic != nil {
+		return nil
+	}
+	for _, g := range ctx.Groups {
+		if !g.Dry {
+			continue
+		}
+		pre, post := map[string]bool{}, map[string]bool{}
+		for _, st := range ctx.Pre {
+			if st.Name == g.Name {
+				for _, n := range st.TaintTracker {
+					pre[n] = true
+				}
+			}
+		}
+		for _, st := range ctx.Post {
+			if st.Name == g.Name {
+				for _, n := range st.TaintTracker {
+					post[n] = true
+				}
+			}
+		}
+		gv := *g
+		gv.U, gv.T = nil, append([]*v1.Node(nil), g.T...)
+		for _, n := range g.U {
+			if pre[n.Name] {
+				gv.T = append(gv.T, n)
+			} else {
+				gv.U = append(gv.U, n)
+			}
+		}
+		d := ref.Decide(&gv, ctx.Start)
+		if d.Edge != "" || d.Starve || d.MaxAge || len(gv.U) < gv.Min {
+			continue
+		}
+		newly := 0
+		for n := range post {
+			if !pre[n] {
+				newly++
+			}
+		}
+		want := -1
+		switch d.Class {
+		case "fast", "slow":
+			want = d.TaintWant
+		case "idle":
+			want = 0
+		}
+		if want < 0 {
+			continue
+		}
+		ctx.H.Cov["c06.dry-band-scans"]++
+		if newly != want {
+			out = append(out, h.Violation{Prop: "C06", Sig: "C06/dry/band/" + d.Class,
+				Msg: fmt.Sprintf("scan %d: dry-mode group %s: %d untracked untainted nodes, class %s: expected %d nodes newly tracked as tainted, saw %d", ctx.Scan, g.Name, len(gv.U), d.Class, want, newly)})
+		}
+	}
+	return out
+}
+
+func c06Monitors() []h.Monitor { return []h.Monitor{NewDecisions(), DryBands{}} }
 
 type c06Point struct {
 	ref      string
@@ -199,6 +273,14 @@ func c06Grid(t *testing.T, tier string, shard, shards int, c *h.Collector) {
 			}
 		}
 	}
+	// untainted nodes carrying the no-delete annotation count and are tainted like any other node
+	for annot := 1; annot <= 4; annot++ {
+		for _, pt := range []c06Point{{"lo", 1, 2, 0}, {"up", 1, 1, -1}, {"up", 1, 1, 1}} {
+			for _, min := range []int{0, 1} {
+				run(c06Case{U: 4, T: 0, Min: min, Lo: 10, Up: 40, Su: 70, Slow: 1, Fast: 2, Ref: pt.ref, Num: pt.num, Den: pt.den, Eps: pt.eps, Driver: "cpu", Annot: annot})
+			}
+		}
+	}
 	// pods whose init containers must not add up
 	for _, u := range []int{2, 4} {
 		for _, drv := range []string{"cpu", "mem"} {
@@ -232,6 +314,26 @@ func c06Grid(t *testing.T, tier string, shard, shards int, c *h.Collector) {
 // cloud minimum edited while escalator runs.
 func c06HistScenarios(tier string) []*h.Scenario {
 	var out []*h.Scenario
+	// a group in dry mode by its own option (the controller flag is off) and by the global flag: a node
+	// it dry-tainted no longer counts, so the next scans sit in other bands (35 % -> 43.75 % -> ...)
+	for _, global := range []bool{false, true} {
+		g := StdGroup("g1")
+		g.Opts.MinNodes = 1
+		g.Opts.DryMode = !global
+		s := &h.Scenario{Name: fmt.Sprintf("c06.dry-group.global-%v", global), Groups: []h.GroupSpec{g}, DryGlobal: global, Slots: 5, Quantum: Q, MaxEventsPerSlot: 1,
+			Init: func(hh *h.Hist) {
+				a := InitASGs(hh)[0]
+				for i := 0; i < 5; i++ {
+					hh.W.AddNode(a, sim.NodeOpt{Age: time.Duration(20+i) * Q})
+				}
+				hh.W.AddPod(podOn(g, hh.W.Nodes[0].Name, 1750))
+			},
+			Events: func(hh *h.Hist, slot int) []h.Event {
+				return []h.Event{evPodFinish(g, hh.W.Nodes[0].Name), evPodStart(g, hh.W.Nodes[0].Name, 200), evRestart()}
+			},
+		}
+		out = append(out, s)
+	}
 	{
 		g := StdGroup("g1")
 		g.Opts.FastNodeRemovalRate, g.Opts.SlowNodeRemovalRate = 2, 1
